@@ -269,7 +269,8 @@ fn dispatch(req: &Value) -> R<Result<Value, String>> {
                 felt(get(req, "alpha")?)?,
                 felt(get(req, "column_size")?)?,
             );
-            Ok(Ok(hex(&r)))
+            // the function returned a Felt before /repo commit e64d4b6 and a Result since
+            Ok(FeltOutcome::outcome(r).map(|f| hex(&f)))
         }
         "get_public_memory_product" => {
             let pi = public_input(req)?;
@@ -367,4 +368,19 @@ fn main() {
         v => handle(v),
     };
     println!("{}", out);
+}
+
+/// Accept both signatures of get_public_memory_product_ratio (Felt, or Result<Felt, E>).
+pub trait FeltOutcome {
+    fn outcome(self) -> Result<Felt, String>;
+}
+impl FeltOutcome for Felt {
+    fn outcome(self) -> Result<Felt, String> {
+        Ok(self)
+    }
+}
+impl<E: core::fmt::Debug> FeltOutcome for Result<Felt, E> {
+    fn outcome(self) -> Result<Felt, String> {
+        self.map_err(|e| format!("{:?}", e))
+    }
 }
